@@ -228,7 +228,7 @@ func init() {
 			func(s *e1.Stats) bool {
 				return marks(s, "action:older-timestamp", "action:equal-timestamp", "asset:replacement-attempt") && s.Joins >= 2
 			})
-		partStepThrough(c, a, []string{"action-vs-delete", "action-vs-leave", "delete", "leave"})
+		partStepThrough(c, a, []string{"action-vs-action", "action-vs-delete", "action-vs-leave", "delete", "leave"})
 		return a.finish(c)
 	}
 }
